@@ -1,6 +1,7 @@
 //! Accessors for harnesses in other modules (the fields of `Updates` are private to this file)
 //! and harnesses for `Updates::send` against a reference decoder (C03, C16).
 use super::*;
+use crate::shared::replication::replication_registry::FnsId;
 
 /// Number of bytes equal to `byte` inside the despawn ranges collected so far, and the total
 /// number of bytes in them. (Byte-wise loops: copying a range of symbolic length is intractable.)
@@ -39,5 +40,206 @@ pub(in crate::server) fn mappings(updates: &Updates) -> (Range<usize>, usize) {
 
 pub(in crate::server) fn changes_len(updates: &Updates) -> usize {
     updates.changes.len()
+}
+
+
+// -------------------------------------------------------------------------------------------
+// Wire format of update messages against a reference decoder written from the documented format:
+// flags (1 byte), tick (varint), then the sections MAPPINGS, DESPAWNS, REMOVALS, CHANGES in this
+// order; every section except the last present one is prefixed with its element count.
+
+struct Reader<'a> {
+    bytes: &'a [u8],
+    pos: usize,
+}
+
+impl Reader<'_> {
+    fn byte(&mut self) -> u8 {
+        let b = self.bytes[self.pos];
+        self.pos += 1;
+        b
+    }
+
+    /// A varint known to occupy exactly `n` bytes (keeps the read position concrete).
+    fn varint_n(&mut self, n: usize) -> u64 {
+        let mut value = 0u64;
+        let mut i = 0;
+        while i < n {
+            let b = self.byte();
+            // continuation bit set on all but the last byte
+            assert!((b & 0x80 != 0) == (i + 1 < n));
+            value |= ((b & 0x7f) as u64) << (7 * i);
+            i += 1;
+        }
+        value
+    }
+
+    fn done(&self) -> bool {
+        self.pos == self.bytes.len()
+    }
+}
+
+fn noop_bytes_drop(_b: &mut bytes::Bytes) {}
+
+/// Environment fake: a sent `Vec<u8>` becomes a `Bytes` over the leaked buffer (same content;
+/// the real conversion shrinks the allocation and tags the pointer's low bit, which CBMC's
+/// pointer encoding cannot digest: out of memory even for a single concrete message).
+fn bytes_from_vec(v: Vec<u8>) -> bytes::Bytes {
+    bytes::Bytes::from_static(Vec::leak(v))
+}
+
+fn log_off() -> log::LevelFilter {
+    log::LevelFilter::Off
+}
+
+fn wire_format_case(mask: u8, long_tick: bool) {
+    let e = |i: u32| Entity::from_raw(i);
+    let client = e(50);
+    // The tick is concrete per call (a short and a long encoding): with a symbolic tick the length of
+    // its varint, hence the size of the message allocation, is symbolic and reading the message
+    // back exhausts CBMC's memory (probe P23). The component value byte is symbolic.
+    let tick = RepliconTick::new(if long_tick { 0xF123_4567 } else { 5 });
+    let value: u8 = kani::any();
+    // Which sections are present is concrete per call (all 16 symbolic subsets at once: no verdict in 900 s).
+    let has = [mask & 1 != 0, mask & 2 != 0, mask & 4 != 0, mask & 8 != 0];
+
+    // Everything is serialized unconditionally, so that all ranges are concrete; which sections
+    // are registered in the message is symbolic.
+    let mut serialized = SerializedData::default();
+    let mut updates = Updates::default();
+    assert!(updates.is_empty());
+    let mappings = serialized.write_mappings([(e(1), e(41))].into_iter()).unwrap();
+    let d1 = serialized.write_entity(e(2)).unwrap();
+    let d2 = serialized.write_entity(e(3)).unwrap();
+    let removed_entity = serialized.write_entity(e(4)).unwrap();
+    let id: FnsId = postcard::from_bytes(&[7]).unwrap();
+    let removed_ids = serialized.write_fn_ids([id].into_iter()).unwrap();
+    let changed_entity = serialized.write_entity(e(5)).unwrap();
+    let start = serialized.len();
+    serialized.extend_from_slice(&[9, value]); // fns id 9, one (symbolic) value byte
+    let component = start..serialized.len();
+    let tick_range = serialized.write_tick(tick).unwrap();
+    if has[0] {
+        updates.set_mappings(mappings, 1);
+    }
+    if has[1] {
+        updates.add_despawn(d1);
+        updates.add_despawn(d2);
+    }
+    if has[2] {
+        updates.add_removals(removed_entity, 1, removed_ids);
+    }
+    if has[3] {
+        updates.start_entity_changes(Visibility::Visible);
+        updates.add_changed_entity(changed_entity);
+        updates.add_inserted_component(component);
+    }
+    assert!(!updates.is_empty());
+
+    let mut server = RepliconServer::default();
+    server.set_running(true);
+    updates.send(&mut server, client, &serialized, tick_range).unwrap();
+    let mut sent = server.drain_sent();
+    let (to, channel, message) = sent.next().unwrap();
+    assert!(sent.next().is_none());
+    assert!(to == client && channel == ServerChannel::Updates as usize);
+
+    // ---- reference decoder
+    let mut r = Reader { bytes: &message[..], pos: 0 };
+    let flags = r.byte();
+    let expect_flags = (has[0] as u8) | (has[1] as u8) << 1 | (has[2] as u8) << 2 | (has[3] as u8) << 3;
+    assert!(flags == expect_flags);
+    assert!(r.varint_n(if long_tick { 5 } else { 1 }) == tick.get() as u64);
+    let last = 7 - flags.leading_zeros() as u8; // index of the highest present section
+    if has[0] {
+        if last != 0 {
+            assert!(r.byte() == 1); // count
+        }
+        assert!(r.byte() == 1 << 1 && r.byte() == 41 << 1); // server entity 1 -> client entity 41
+    }
+    if has[1] {
+        if last != 1 {
+            assert!(r.byte() == 2);
+        }
+        assert!(r.byte() == 2 << 1 && r.byte() == 3 << 1);
+    }
+    if has[2] {
+        if last != 2 {
+            assert!(r.byte() == 1);
+        }
+        assert!(r.byte() == 4 << 1); // entity
+        assert!(r.byte() == 1); // number of removed components
+        assert!(r.byte() == 7); // fns id
+    }
+    if has[3] {
+        assert!(last == 3);
+        assert!(r.byte() == 5 << 1); // entity
+        assert!(r.byte() == 1); // number of components
+        assert!(r.byte() == 9 && r.byte() == value);
+    }
+    assert!(r.done());
+    core::mem::forget((sent, message));
+    core::mem::forget((updates, serialized));
+}
+
+// HARNESS: c03_update_wire_a
+// PROPS: C03 C16
+// TIER: quick
+// TIMEOUT: 900
+// DRIVES: Updates::send, Updates::flags, Updates::set_mappings, Updates::add_despawn, Updates::add_removals, Updates::add_changed_entity, Updates::add_inserted_component, Updates::is_empty, UpdateMessageFlags::last, SerializedData::write_mappings, SerializedData::write_entity, SerializedData::write_fn_ids, SerializedData::write_tick
+// BOUNDS: section subsets [1, 2, 3, 4, 5] (bit 0 mappings, 1 despawns, 2 removals, 3 changes), one element per section (two despawns), entities with index < 64; server tick 0xF1234567 (5-byte varint) and, for one subset, 5 (1 byte); symbolic component value byte; reference decoder; unwind 8
+#[kani::proof]
+#[kani::unwind(8)]
+#[kani::stub(<bytes::Bytes as core::ops::Drop>::drop, noop_bytes_drop)]
+#[kani::stub(log::max_level, log_off)]
+fn c03_update_wire_a() {
+    wire_format_case(1, true);
+    wire_format_case(2, true);
+    wire_format_case(3, true);
+    wire_format_case(4, true);
+    wire_format_case(5, true);
+    kani::cover!(true, "all cases executed");
+    kani::cover!(UpdateMessageFlags::CHANGES.bits() == 8, "flag layout as documented");
+}
+
+// HARNESS: c03_update_wire_b
+// PROPS: C03 C16
+// TIER: quick
+// TIMEOUT: 900
+// DRIVES: Updates::send, Updates::flags, Updates::set_mappings, Updates::add_despawn, Updates::add_removals, Updates::add_changed_entity, Updates::add_inserted_component, Updates::is_empty, UpdateMessageFlags::last, SerializedData::write_mappings, SerializedData::write_entity, SerializedData::write_fn_ids, SerializedData::write_tick
+// BOUNDS: section subsets [6, 7, 8, 9, 10] (bit 0 mappings, 1 despawns, 2 removals, 3 changes), one element per section (two despawns), entities with index < 64; server tick 0xF1234567 (5-byte varint) and, for one subset, 5 (1 byte); symbolic component value byte; reference decoder; unwind 8
+#[kani::proof]
+#[kani::unwind(8)]
+#[kani::stub(<bytes::Bytes as core::ops::Drop>::drop, noop_bytes_drop)]
+#[kani::stub(log::max_level, log_off)]
+fn c03_update_wire_b() {
+    wire_format_case(6, true);
+    wire_format_case(7, true);
+    wire_format_case(8, true);
+    wire_format_case(9, true);
+    wire_format_case(10, true);
+    kani::cover!(true, "all cases executed");
+    kani::cover!(UpdateMessageFlags::CHANGES.bits() == 8, "flag layout as documented");
+}
+
+// HARNESS: c03_update_wire_c
+// PROPS: C03 C16
+// TIER: quick
+// TIMEOUT: 900
+// DRIVES: Updates::send, Updates::flags, Updates::set_mappings, Updates::add_despawn, Updates::add_removals, Updates::add_changed_entity, Updates::add_inserted_component, Updates::is_empty, UpdateMessageFlags::last, SerializedData::write_mappings, SerializedData::write_entity, SerializedData::write_fn_ids, SerializedData::write_tick
+// BOUNDS: section subsets [11, 12, 13, 14, 15] (bit 0 mappings, 1 despawns, 2 removals, 3 changes), one element per section (two despawns), entities with index < 64; server tick 0xF1234567 (5-byte varint) and, for one subset, 5 (1 byte); symbolic component value byte; reference decoder; unwind 8
+#[kani::proof]
+#[kani::unwind(8)]
+#[kani::stub(<bytes::Bytes as core::ops::Drop>::drop, noop_bytes_drop)]
+#[kani::stub(log::max_level, log_off)]
+fn c03_update_wire_c() {
+    wire_format_case(11, true);
+    wire_format_case(12, true);
+    wire_format_case(13, true);
+    wire_format_case(14, true);
+    wire_format_case(15, true);
+    wire_format_case(15, false);
+    kani::cover!(true, "all cases executed");
+    kani::cover!(UpdateMessageFlags::CHANGES.bits() == 8, "flag layout as documented");
 }
 
